@@ -44,7 +44,7 @@ class VirtualHosts(BaseComponent):
         super().__init__()
 
         self.domains = domains
-        self.trusted_gateways = None
+        self.trusted_gateways = trusted_gateways
 
     @handler('request', priority=1.0)
     def _on_request(self, event, request, response):
